@@ -76,7 +76,7 @@ type Stats struct {
 	MultiVersionKeys, CompactedMultiVersion, DiscardMoves         int
 	ManagedLowerWrite, ReadOnlyOpens, CheckAlls, ThresholdCrossed int
 	MultiTableLevel, CommitsAfterReopen, CompactAfterExpiry       int
-	HitKnown, GCFailed                                            int
+	HitKnown, GCFailed, GCPauseOps                                int
 	Excluded                                                      int
 }
 
@@ -172,6 +172,7 @@ type Interp struct {
 	// hooks for derived checks
 	OnReopen func(in *Interp) error
 	AfterOp  func(in *Interp) error
+	skip     int // ops still to be skipped by the main loop (they ran inside a GC pause)
 	// TsRestarts counts re-opens after which the DB restarted its timestamps below dropped dead versions.
 	TsRestarts int
 	// Ext holds the op kinds of derived checks (stream, backup, drop, ...), Cnt their counters.
@@ -193,7 +194,14 @@ func val(seq, size int) []byte {
 	return v
 }
 
+// reservedKeyBase: key indices from here on name a reserved key family that sorts after every pool
+// key (used by macros that need a key range no other data overlaps).
+const reservedKeyBase = 1 << 20
+
 func (in *Interp) key(i int) []byte {
+	if i >= reservedKeyBase {
+		return []byte{0xff, 0xff, 0xff, 0xff, 0xff, 0xff, byte(i - reservedKeyBase)}
+	}
 	n := len(in.P.Keys)
 	fan := in.P.Fan
 	if fan < 1 {
@@ -978,7 +986,40 @@ func (in *Interp) doGC(op Op) error {
 	}
 	before := in.db.VerifVlogFids()
 	cands := in.staleCandidates()
+	// op.A > 0: the next op.A ops of the program run INSIDE the rewrite, between its scan and its
+	// write-back phase (the pause hook of the production code), if this GC call gets that far;
+	// otherwise they simply run afterwards.
+	var hookErr error
+	if n := op.A; n > 0 && in.step+n < len(in.P.Ops) && in.P.Ops[in.step].Kind == "gc" {
+		base := in.step
+		fired := false
+		in.db.VerifSetGCPauseHook(func() {
+			if fired {
+				return
+			}
+			fired = true
+			in.St.GCPauseOps++
+			for j := 1; j <= n; j++ {
+				sub := in.P.Ops[base+j]
+				if sub.Kind == "gc" || sub.Kind == "reopen" {
+					continue // not from inside a rewrite
+				}
+				in.step = base + j
+				if err := in.execOp(sub); err != nil {
+					hookErr = err
+					break
+				}
+			}
+			in.step = base
+			in.skip = n
+		})
+		defer in.db.VerifSetGCPauseHook(nil)
+	}
 	err := in.db.RunValueLogGC(ratio)
+	in.db.VerifSetGCPauseHook(nil)
+	if hookErr != nil {
+		return hookErr
+	}
 	in.St.GCRuns++
 	// Any error means "this call collected nothing it can vouch for"; the statements constrain
 	// what reads return, not whether a GC call succeeds. A failed rewrite may still have written
@@ -1298,6 +1339,10 @@ func (in *Interp) CheckAll() error {
 // Exec runs the whole program.
 func (in *Interp) Exec() error {
 	for i, op := range in.P.Ops {
+		if in.skip > 0 { // already executed inside a value-log GC pause (see doGC)
+			in.skip--
+			continue
+		}
 		in.step = i
 		if err := in.execOp(op); err != nil {
 			return in.filterKnown(err)
